@@ -150,8 +150,19 @@ def write_replay(f: Failure) -> str:
     return path
 
 
+def _say(line: str) -> None:
+    """print that survives a reader closing the pipe early (the exit code still tells the verdict)"""
+    try:
+        print(line, flush=True)
+    except BrokenPipeError:
+        try:
+            sys.stdout = open(os.devnull, "w")
+        except Exception:
+            pass
+
+
 def finish(report: Report, tier: str, t0: float, collect: str | None = None) -> int:
-    """Match failures against known findings, print verdict lines, write evidence. Returns exit code."""
+    """Match failures against known findings, write evidence, print verdict lines. Returns exit code."""
     known = Known()
     by_finding: dict[str, list[Failure]] = {}
     unknown: list[Failure] = []
@@ -161,26 +172,7 @@ def finish(report: Report, tier: str, t0: float, collect: str | None = None) -> 
             unknown.append(f)
         else:
             by_finding.setdefault(k["id"], []).append(f)
-    for fid in sorted(by_finding):
-        k = next(x for x in known.findings if x["id"] == fid)
-        fs = by_finding[fid]
-        raw = sum(x.raw_count for x in fs)
-        print(f"KNOWN-FINDING: property={report.prop} {fid} {k.get('summary','')} ({len(fs)} minimal cases, {raw} raw)")
-    if collect:
-        json.dump(
-            [dataclasses.asdict(f) for f in unknown], open(collect, "w"), indent=1, ensure_ascii=False
-        )
-        json.dump({"property": report.prop, "observed": sorted(f.sig for fs in by_finding.values() for f in fs)}, open(collect + ".observed", "w"), ensure_ascii=False)
-        print(f"collected {len(unknown)} unlisted failures into {collect}")
-    shown = 0
-    for f in unknown:
-        path = write_replay(f)
-        if shown < 40:
-            print(f"VIOLATION property={report.prop} replay={path}")
-            print(f"  class={f.cls} {f.detail[:300]}")
-        shown += 1
-    if shown > 40:
-        print(f"... {shown - 40} more violations (replay files written)")
+    # evidence first: it must exist whatever happens to stdout
     cov = dict(report.coverage)
     cov.setdefault("known_findings_observed", sorted(by_finding))
     cov.setdefault("minimal_failures_total", len(report.failures))
@@ -200,10 +192,30 @@ def finish(report: Report, tier: str, t0: float, collect: str | None = None) -> 
     tmp = out + ".tmp"
     json.dump(ev, open(tmp, "w"), indent=1, ensure_ascii=False, default=str)
     os.replace(tmp, out)
+    for fid in sorted(by_finding):
+        k = next(x for x in known.findings if x["id"] == fid)
+        fs = by_finding[fid]
+        raw = sum(x.raw_count for x in fs)
+        _say(f"KNOWN-FINDING: property={report.prop} {fid} {k.get('summary','')} ({len(fs)} minimal cases, {raw} raw)")
+    if collect:
+        json.dump(
+            [dataclasses.asdict(f) for f in unknown], open(collect, "w"), indent=1, ensure_ascii=False
+        )
+        json.dump({"property": report.prop, "observed": sorted(f.sig for fs in by_finding.values() for f in fs)}, open(collect + ".observed", "w"), ensure_ascii=False)
+        _say(f"collected {len(unknown)} unlisted failures into {collect}")
+    shown = 0
+    for f in unknown:
+        path = write_replay(f)
+        if shown < 40:
+            _say(f"VIOLATION property={report.prop} replay={path}")
+            _say(f"  class={f.cls} {f.detail[:300]}")
+        shown += 1
+    if shown > 40:
+        _say(f"... {shown - 40} more violations (replay files written)")
     for n in report.notes:
-        print("note:", n)
+        _say("note: " + str(n))
     status = "FAIL" if unknown else "ok"
-    print(f"[{report.prop} {tier}] {status}: " + ", ".join(f"{k}={v}" for k, v in cov.items() if isinstance(v, (int, float, bool))) + f" wall={ev['wall_s']}s")
+    _say(f"[{report.prop} {tier}] {status}: " + ", ".join(f"{k}={v}" for k, v in cov.items() if isinstance(v, (int, float, bool))) + f" wall={ev['wall_s']}s")
     return 1 if unknown else 0
 
 
